@@ -509,12 +509,58 @@ PINV_ARGS = []     # (args, kwargs) of every pinv call: the contract only covers
 
 def pinv_contract(m, real_impl, args=(), kwargs=None):
     PINV_ARGS.append((tuple(args), dict(kwargs or {})))
+    if PINV_EXACT[0] and isinstance(m, np.ndarray):
+        ex = _exact_inverse(np.asarray(m, dtype=object)) if m.ndim == 2 and m.shape[0] == m.shape[1] else None
+        if ex is not None:
+            PINV_LOG.append((np.asarray(m, dtype=object), ex))
+            return ex
     if isinstance(m, np.ndarray) and m.dtype == object and not builtins.any(isinstance(v, SYM) for v in m.ravel()):
         # an object array that only holds concrete numbers (allocated symbolically, filled concretely)
         m = np.asarray(m.tolist(), dtype=complex if builtins.any(isinstance(v, complex) for v in m.ravel()) else float)
     if not is_sym(m):
         return real_impl(m, *args, **(kwargs or {}))
     return _pinv_contract(m, real_impl)
+
+
+PINV_EXACT = [False]     # when set: closed rational matrices are inverted exactly (an exact instance of the contract)
+
+
+def _closed_fraction(v):
+    from fractions import Fraction
+    if isinstance(v, R):
+        t = z3.simplify(v.t)
+        return t.as_fraction() if z3.is_rational_value(t) else None
+    if isinstance(v, (int, np.integer)):
+        return Fraction(int(v))
+    if isinstance(v, (float, np.floating)):
+        return Fraction(float(v))
+    return None
+
+
+def _exact_inverse(m):
+    from fractions import Fraction
+    n = m.shape[0]
+    A = [[_closed_fraction(m[i, j]) for j in range(n)] for i in range(n)]
+    if any(v is None for row in A for v in row):
+        return None
+    I = [[Fraction(int(i == j)) for j in range(n)] for i in range(n)]
+    for c in range(n):
+        piv = next((r for r in range(c, n) if A[r][c] != 0), None)
+        if piv is None:
+            return None
+        A[c], A[piv] = A[piv], A[c]; I[c], I[piv] = I[piv], I[c]
+        pv = A[c][c]
+        A[c] = [v / pv for v in A[c]]; I[c] = [v / pv for v in I[c]]
+        for r in range(n):
+            if r != c and A[r][c] != 0:
+                fct = A[r][c]
+                A[r] = [a - fct * b for a, b in zip(A[r], A[c])]
+                I[r] = [a - fct * b for a, b in zip(I[r], I[c])]
+    out = np.empty((n, n), dtype=object)
+    for i in range(n):
+        for j in range(n):
+            out[i, j] = R(I[i][j])
+    return out.view(SymArr)
 
 
 def _pinv_contract(m, real_impl):
@@ -526,6 +572,11 @@ def _pinv_contract(m, real_impl):
     n0, n1 = m.shape
     if n0 != n1:
         raise NeedsConcrete('pinv contract only covers square systems')
+    if PINV_EXACT[0]:
+        ex = _exact_inverse(m)
+        if ex is not None:
+            PINV_LOG.append((m, ex))
+            return ex
     cplx = builtins.any(isinstance(lift(v), C) for v in m.ravel())
     k = len(PINV_LOG)
     P = np.empty((n0, n0), dtype=object)
